@@ -105,6 +105,8 @@ def check_heuristic(ctx, lib, rule, b):
             some_vals.append((r[3][0][1], p))
         elif r[0] == "adt" and r[2] == "None":
             continue
+        elif r[0] == "app" and flow.last(str(r[1])) == "from_residual" and symx.contains(r, lambda n_: n_[0] == "app" and str(n_[1]).endswith("::branch") and "option::Option" in str(n_[1])):
+            continue    # `x?` on an Option that is None: the function answers None
         elif r[0] == "app" and flow.last(r[1]) == "map" and r[2] and deep_strip(r[2][0])[0] == "app":
             # Option::map(min_by(filter(enumerate(iter(interpr)), P), cmp), closure): analyse the closure on an item of the chain
             recv = deep_strip(r[2][0])
@@ -255,6 +257,31 @@ def index_of_undecided(idx, p, INT, lib, ctx, rule, name):
                            found=whyb, kind="refuted" if whyb.startswith("modulus") else "cannot-establish")
                     return True, None
             return False, "indexed collection is not the filtered enumerate chain"
+    # (c) element of a collection of *indices*: undecided[position] with undecided = interpr.iter().enumerate().filter(undecided).map(|(i, _)| i).collect()
+    if idx[0] == "index":
+        coll = deep_strip(idx[1])
+        if coll[0] == "app" and flow.last(coll[1]) == "collect":
+            inner = deep_strip(coll[2][0])
+            if inner[0] == "app" and flow.last(inner[1]) == "map" and len(inner[2]) == 2 and inner[2][1][0] == "closure":
+                ok, pred = filtered_chain(deep_strip(inner[2][0]), INT)
+                proj_ok = False
+                if ok and pred:
+                    cb = lib.body(inner[2][1][1])
+                    eng = ctx.engine([lib])
+                    st = symx.State()
+                    env = eng.closure_env(st, cb, [("sym", "cap")] * len(inner[2][1][2]))
+                    I = ("sym", "i")
+                    rets = set()
+                    for p2 in eng.summarise(cb, [env, ("tuple", (I, shared.ref_to(st, shared.term_sym("t"))))], st):
+                        rets.add(deep_strip(p2.ret) if p2.end == "return" else ("end", p2.end))
+                    proj_ok = rets == {I}
+                if ok and pred and proj_ok:
+                    pred_table(ctx, lib, rule, name, pred)
+                    okb, whyb = index_in_bounds(deep_strip(idx[2]), coll, p)
+                    ctx.ob(rule, name + ".index-in-bounds", okb, expected="position = x % len(the indexed collection), collection tested non-empty",
+                           found=whyb, kind="refuted" if whyb.startswith("modulus") else "cannot-establish")
+                    return True, None
+                return False, "indexed collection is not the list of the indices of the undecided entries"
     return False, "index %s is not the enumerate index of an entry" % symx.show(idx)[:120]
 
 
@@ -265,7 +292,7 @@ def index_in_bounds(pos, coll, p):
     while True:
         if x[0] in ("field", "downcast"):
             x = x[1]
-        elif x[0] == "app" and flow.last(str(x[1])) in ("try_from", "try_into", "into", "from", "unwrap", "expect", "unwrap_or_default", "ok") and x[2]:
+        elif x[0] == "app" and flow.last(str(x[1])) in ("try_from", "try_into", "into", "from", "unwrap", "expect", "unwrap_or_default", "ok", "branch") and x[2]:
             x = deep_strip(x[2][0])
         else:
             break
